@@ -4,7 +4,7 @@
       of the Program value: it must not consume it (a one-shot iterator stored in an IR node - generator expression, map(...), iter(...) -
       is empty after the first walk) and must not change it.  Oracle: for EVERY program of the check's corpus and for a corpus that reaches
       every IR node class of ast.py (the statement catalog of harness/c06_pairs.py in 13 kinds of block + break / continue + LCD glyph
-      scripts), p = parse(src); emit(p); emit(p); emit(parse(other)); emit(p); emit(parse(src)) - five texts, one sha256.  The replay names
+      scripts), p = parse(src); p2 = parse(src); emit(p); emit(p); emit(parse(other)); emit(p); emit(parse(src)); emit(p2) - five texts, one sha256.  The replay names
       the objects inside the Program that are not plain data and says whether a deep snapshot of the Program changed across emit().
       Correspondence: coq/Lang/EmitSession.v (sequence fields that may be one-shot; esession / espec) against real parse/emit sessions of
       glyph scripts, under the storage kind the inventory (harness/gen/purity.py) reads off the source.
@@ -108,7 +108,7 @@ def emit_oracle(ctx, C, seed, progs):
             if c["origin"].startswith("ir-"):
                 ctx.disagree("script of the IR coverage corpus is rejected by the transpiler (generator bug)", c["src"], None, r)
             continue
-        evaluations += 4
+        evaluations += 5
         classes |= set(r["classes"])
         n_mut += 1 if r["mutated"] else 0
         n_opaque += 1 if r["opaque"] else 0
@@ -367,8 +367,8 @@ def rejected_oracle(ctx, C, seed):
             checks.append((a[3], a[0], fam, "V P V P P", list(seen) + [p, v, p], p))
             checks.append((a[4], ref_v, fam, "V P V P P V", list(seen) + [p, v, p, p], v))
             seen += [p, v, p, p, v]
-        for p, rp in zip(ps, list(fam["ref_p"])):
-            a = add([p, p, v])
+        for j_, (p, rp) in enumerate(zip(ps, list(fam["ref_p"]))):
+            a = add([p, p, v], reset=(j_ == 0))
             checks.append((a[0], rp, fam, "P alone (after a module reset)", [], p))
             checks.append((a[1], rp, fam, "P P", [p], p))
             checks.append((a[2], ref_v, fam, "P P V", [p, p], v))
@@ -401,8 +401,45 @@ def rejected_oracle(ctx, C, seed):
                          sources[prog],
                          {"session": what + "  (V = the valid helper program, P = its poisoned twin: same helper names and call signatures, rejected with ValueError)",
                           "family_shape": fam["shape"], "outcome_alone": res[ref].get("exc") or "accepted", "outcome_in_the_session": res[at].get("exc") or "accepted",
-                          "origin": "poisoned twin"}, budget)
-    dist = {"helper_families_by_shape": shapes, "outcomes_alone": outcomes, "session_comparisons": evaluations, "reports_by_class": budget}
+                          "origin": "poisoned twin",
+                          "replay": "one process: PYTHONPATH=/repo/src python -c 'import sys; from Reduino.transpile.parser import parse; from Reduino.transpile.emitter "
+                                    "import emit\nfor f in sys.argv[1:-1]:\n    try: emit(parse(open(f).read()))\n    except ValueError: pass\n"
+                                    "print(emit(parse(open(sys.argv[-1]).read())))' <earlier programs...> <program>   versus the same command with <program> alone"}, budget)
+    # ---- ABORTED transpilations: V itself, cut short at a seeded selection of its function calls by an exception that is not a ValueError
+    # (what Ctrl-C or a MemoryError does); V afterwards must come out as it does alone.  The aborted script shares every key with V.
+    vs = [fam["V"] for fam in fams]
+    counts = c10_roles.run_ops(C, vs, [["ti", i, 0] for i in range(len(vs))], seed)
+    ops2, back = [], []
+    n_abort = 0
+    for i, r0 in enumerate(counts):
+        total = r0.get("calls", 0)
+        if not r0["ok"] or total < 2:
+            continue
+        if not thorough and i % 2:
+            continue
+        parts = 8 if thorough else 4
+        cuts = sorted({1 + (total * q) // parts for q in range(1, parts)} | {rng.randint(1, total) for _ in range(3 if thorough else 1)})
+        for n_ in cuts:
+            ops2 += [["ti", i, n_], ["t", i]]
+            back.append((len(ops2) - 1, i, n_, total))
+    res2 = c10_roles.run_ops(C, vs, ops2, seed) if ops2 else []
+    for at, i, n_, total in back:
+        evaluations += 1
+        n_abort += 1 if not res2[at - 1]["ok"] else 0
+        if res2[at]["sha"] != counts[i]["sha"] and budget.get("after-aborted-parse", 0) < 3:
+            budget["after-aborted-parse"] = budget.get("after-aborted-parse", 0) + 1
+            alone = c10_roles.run_ops(C, [vs[i]], [["t", 0]], seed, texts=True)[0]
+            after = c10_roles.run_ops(C, [vs[i]], [["ti", 0, n_], ["t", 0]], seed, texts=True)[1]
+            ctx.fail("a script comes out differently after an earlier transpilation of the same process was ABORTED by an exception raised inside "
+                     "parse()/emit() (a BaseException injected at a function call of parser.py / emitter.py, as KeyboardInterrupt or MemoryError would be)",
+                     {"program": vs[i], "aborted_at_call": n_, "calls_of_a_full_transpilation": total, "hashseed": seed,
+                      "unified_diff": _udiff(alone.get("cpp") or alone["sha"], after.get("cpp") or after["sha"], "program alone (fresh process)",
+                                             "after the aborted transpilation of the same program (fresh process)"),
+                      "replay": 'echo \'{"mode": "ops", "texts": true, "sources": [<program>], "ops": [["ti", 0, %d], ["t", 0]]}\' | PYTHONPATH=/repo/src python harness/impl/c10_impl.py' % n_},
+                     expected=f"sha256 {str(alone['sha'])[:16]} (the text of the program transpiled alone)", observed=f"sha256 {str(after['sha'])[:16]}",
+                     key="after-aborted-parse")
+    dist = {"helper_families_by_shape": shapes, "outcomes_alone": outcomes, "session_comparisons": evaluations, "reports_by_class": budget,
+            "aborted_transpilations(cut points that really aborted)": n_abort}
     return evaluations, len(fams), dist
 
 
@@ -489,6 +526,15 @@ def variant_correspondence(ctx, C, seed):
                 ctx.disagree("helper session: VariantSession.vsession (guard configuration from the inventory) vs the real parse()+emit() at "
                              f"position {k} of a session in one process", {"program": p[1], "earlier_programs": [q[1] for q in ses[:k]]}, want, got)
     return n, {"helper_sessions": len(sessions), "programs_compared": n, "outcomes": kinds}
+
+
+def extra_corpus(rng, thorough):
+    """helper programs (several call signatures, nested helpers, recursion, calls before the def, in loops / branches / callbacks) and glyph
+    scripts for the MAIN corpus of the check: hash seeds, dictated set orders, environments, repeated / interleaved sessions"""
+    out = [(fam["V"], "helper " + fam["shape"]) for fam in poison_families(rng, 42 if thorough else 14)]
+    out += [(glyph_script(rng)[1], "glyph") for _ in range(24 if thorough else 6)]
+    out += [(c["src"], c["origin"]) for c in small_ir_scripts(rng)]
+    return out
 
 
 def run_purity(ctx, C, seed, have_model, progs):
